@@ -678,8 +678,9 @@ Fixpoint hsize (h : header) : Z :=
 Fixpoint hcount (h : header) : Z :=
   match h with [] => 0 | (_, vs) :: h' => Z.of_nat (length vs) + hcount h' end.
 
+(* the Request-URI is held by net/url (a copy of at most one line of input), not counted here *)
 Definition request_size (q : request) : Z :=
-  zlen (q_method q) + zlen (q_url q) + zlen (q_proto q) + hsize (q_hdr q) + zlen (q_body q).
+  zlen (q_method q) + zlen (q_proto q) + hsize (q_hdr q) + zlen (q_body q).
 Definition response_size (p : response) : Z :=
   zlen (p_proto p) + zlen (p_status p) + hsize (p_hdr p) + zlen (p_body p).
 
